@@ -322,6 +322,7 @@ UNITS = {
             I(RAW, r'^impl < T , A : Allocator > Drop for RawTable < T , A >$', 'drop', impl='RawTable<T, A>|<T, A: Allocator>', key='RawTable::drop'),
             I(RAW, r'^impl < T , A : Allocator > RawTable < T , A >$', 'clear_no_drop', impl='RawTable<T, A>|<T, A: Allocator>', key='RawTable::clear_no_drop'),
             I(RAW, r'^impl < T , A : Allocator > RawTable < T , A >$', 'clear', impl='RawTable<T, A>|<T, A: Allocator>', key='RawTable::clear'),
+            I(RAW, r'^impl < T , A : Allocator > RawTable < T , A >$', 'drain_iter_from', impl='RawTable<T, A>|<T, A: Allocator>', key='RawTable::drain_iter_from'),
             dict(I(RAW, r"^impl < T , A : Allocator > Drop for RawDrain < '_ , T , A >$", 'drop', impl='RawDrain<T, A>|<T, A: Allocator>', key='RawDrain::drop'), in_drain=True),
         ],
     ),
@@ -1276,6 +1277,20 @@ def dropglue_rules(toks, i, out, hit):
     if t.text == 'Self' and seq(i + 1, ':', ':', 'TABLE_LAYOUT'):
         out.extend([T('Self', t.gap), T(':', ''), T(':', ''), T('table_layout', ''), T('(', ''), T(')', '')])
         hit('R14_assoc_const_TABLE_LAYOUT_to_opaque_fn')
+        return i + 4
+    # R14b / R39: `RawTableInner::NEW` -> `RawTableInner::new_singleton()`; `NonNull::from(&mut X)` -> `OrigTable::of(&mut X)`;
+    #             `RawDrain<'_, T, A>` (a type) -> `RawDrain<T, A>`
+    if t.text == 'RawTableInner' and seq(i + 1, ':', ':', 'NEW'):
+        out.extend([T('RawTableInner', t.gap), T(':', ''), T(':', ''), T('new_singleton', ''), T('(', ''), T(')', '')])
+        hit('R14b_NEW_const_to_fn')
+        return i + 4
+    if t.text == 'NonNull' and seq(i + 1, ':', ':', 'from', '('):
+        out.extend([T('OrigTable', t.gap), T(':', ''), T(':', ''), T('of', '')])
+        hit('R39_pointer_to_original_table')
+        return i + 4
+    if t.text == 'RawDrain' and seq(i + 1, '<', "'_", ','):
+        out.extend([T('RawDrain', t.gap), T('<', '')])
+        hit('R39_elided_lifetime_parameter_dropped')
         return i + 4
     if t.text == ':' and seq(i + 1, ':', '<', 'T', ',', '_', '>'):
         out.extend([T(':', ''), T(':', ''), T('<', ''), T('T', ''), T(',', ''), T('A'), T('>', '')])
